@@ -214,3 +214,16 @@ Proof. exact internal_level_consistent_l. Qed.
 Theorem internal_level_sqrt2_profile_offset :
   forall s z, skip_first s = true -> skip_odd s = true -> internal_level s z = public_level s true z + 2.
 Proof. exact internal_level_offset_l. Qed.
+
+(* Request isolation (schedules): for every tile service table, every family of TMS / tiles / KML requests and every
+   interleaving of their parse and handle events (a multi-threaded WSGI server), a request that is handled after it was
+   parsed hands the tile manager exactly the coordinate it would get alone (`served` of its own layer and address) -
+   whatever other requests were parsed or handled in between.  The model keeps the class-level `dimensions` dict of
+   TileRequest and the per-instance dict that _init_request assigns; the invariant is that the class-level dict is
+   never written. *)
+Theorem request_isolation :
+  forall t srv reqs pre post i,
+    In (RParse i) pre -> ~ In (RHandle i) post ->
+    answer_of (run_schedule t srv reqs (pre ++ RHandle i :: post)) i =
+    Some (handle_with t srv (reqs i) (rq_spec (reqs i))).
+Proof. exact request_isolation_l. Qed.
